@@ -8,20 +8,24 @@ from . import small as SM
 CONFIG = {
     'C01': dict(streams=[('td_class', 480), ('td_wf', 880), ('td_coarse', 320), ('fail_wf', 200), ('panic', 240), ('multi', 40)], keep='om'),
     'C02': dict(streams=[('td_exact', 880), ('td_wf', 480), ('td_mid', 160), ('panic', 240), ('fail_wf', 240)], keep='ov'),
-    'C03': dict(streams=[('bu_class', 320), ('bu_wf', 720), ('mixed_wf', 320), ('newreq', 160), ('cutoff_newreq', 160), ('reported_products', 160), ('fail_bu', 200), ('mid_session', 160)], keep='ovm'),
+    'C03': dict(streams=[('bu_class', 320), ('bu_wf', 720), ('mixed_wf', 320), ('newreq', 160), ('cutoff_newreq', 160), ('reported_products', 160), ('fail_bu', 200), ('mid_session', 160)], keep='ovm', extra='lossy'),
     'C04': dict(streams=[('bu_class', 320), ('bu_wf', 960), ('mixed_wf', 160), ('newreq', 160), ('cutoff_newreq', 240), ('reported_products', 120), ('abort_bu', 240)], keep='ov'),
-    'C05': dict(streams=[('inj_hidden', 1200), ('siblings', 240), ('td_wf', 160), ('same_session', 80)], keep='om', extra='wabort'),
+    'C05': dict(streams=[('inj_hidden', 1200), ('siblings', 240), ('td_wf', 160), ('same_session', 80), ('chain_readers', 160)], keep='om', extra='wabort'),
     'C06': dict(streams=[('inj_overlap', 1200), ('td_wf', 160), ('same_session', 80), ('newreq', 160)], keep='om', extra='wabort'),
     'C07': dict(streams=[('inj_cycle', 880), ('reorder_cycle', 240), ('cycle_query', 240), ('newreq', 160), ('mid_session', 240)], keep='ov'),
     'C08': dict(streams=[('td_wf', 560), ('bu_wf', 320), ('multi', 80), ('panic', 240), ('abort_bu', 120), ('newreq', 160), ('same_abort', 80), ('fail_wf', 160)], keep='od'),
-    'C09': dict(streams=[('td_coarse', 880), ('bu_wf', 320), ('multi', 80), ('near_td', 300), ('near_bu', 200)], keep='dv', extra='stampsrc'),
+    'C09': dict(streams=[('td_coarse', 880), ('bu_wf', 320), ('multi', 80), ('near_td', 300), ('near_bu', 200)], keep='dv', extra='stampsrc,lossy'),
     'C16': dict(streams=[('td_wf', 240), ('bu_wf', 240), ('mixed_wf', 120), ('newreq', 160), ('abort_bu', 200), ('panic', 160)], keep='oevdm', two_process=True, extra='fsclock'),
     'C17': dict(streams=[('td_wf', 480), ('bu_wf', 480), ('fail_wf', 240), ('panic', 160), ('failstamp', 160)], keep='v', extra='tracker'),
-    'C18': dict(streams=[('fail_wf', 800), ('fail_bu', 500), ('fail_mixed', 300), ('fail_panic', 400)], keep='eov'),
+    'C18': dict(streams=[('fail_wf', 800), ('fail_bu', 500), ('fail_mixed', 300), ('fail_panic', 400)], keep='eov', extra='flaky'),
     'C19': dict(streams=[('panic', 800), ('abort_bu', 160), ('inj_hidden', 200), ('inj_overlap', 200), ('inj_cycle', 200), ('same_abort', 120)], keep='od'),
-    'C20': dict(streams=[('td_class', 320), ('td_wf', 480), ('bu_wf', 240), ('roles', 640), ('same_abort', 120)], keep='o'),
+    'C20': dict(streams=[('td_class', 320), ('td_wf', 480), ('bu_wf', 240), ('roles', 640), ('same_abort', 120), ('chain_readers', 200)], keep='o'),
 }
 THOROUGH_FACTOR = 12
+
+
+def has_extra(cfg, name):
+    return name in str(cfg.get('extra', '')).split(',')
 
 
 def make_case(rng, stream, big=False):
@@ -37,6 +41,9 @@ def make_case(rng, stream, big=False):
         return p, steps, norm_meta({}, 'td')
     if stream == 'newreq':
         p, steps, meta = P.gen_newreq_program(rng)
+        return p, steps, norm_meta(meta, 'mixed')
+    if stream == 'chain_readers':
+        p, steps, meta = P.gen_chain_readers_program(rng)
         return p, steps, norm_meta(meta, 'mixed')
     if stream == 'reported_products':
         p, steps, meta = P.gen_reported_products_program(rng)
@@ -275,7 +282,7 @@ def run(prop, tier, seed, replay=None):
             if a != b:
                 first = next((j for j, (x, y) in enumerate(zip(a, b)) if x != y), min(len(a), len(b)))
                 divergences.append((i, first, a[first] if first < len(a) else None, b[first] if first < len(b) else None))
-    if cfg.get('extra') == 'stampsrc' and (not replay or cases[0][4] == 'stampsrc_probe'):
+    if has_extra(cfg, 'stampsrc') and (not replay or cases[0][4] == 'stampsrc_probe'):
         # where stamps come from: a resource that numbers its opens (harness misc_probe stampsrc), both contexts, nested or not
         exe_probe, pout = C.build_harness('misc_probe')
         rc1, o1, _ = C.sh([exe_probe, 'stampsrc'], timeout=600) if exe_probe else (1, '', 0)
@@ -292,7 +299,7 @@ def run(prop, tier, seed, replay=None):
                 what = {'0': 'read', '1': 'write', '2': 'create_writer + written_to'}[kv['mode']]
                 findings.append(('stamp-source', 'stamp-source probe (%s context, %s%s): the task used open #%s of the resource, the recorded stamp is %s (expected %s) and the resource was opened %s time(s) (expected 1): the stamp was not taken from the very reader/writer handed to the task' % (kv['ctx'], what, ', nested' if kv['nested'] == '1' else '', seen0, kv['stamps'], exp, kv['opens']), base))
                 break
-    if cfg.get('extra') == 'fsclock' and (not replay or cases[0][4] == 'fsclock_probe'):
+    if has_extra(cfg, 'fsclock') and (not replay or cases[0][4] == 'fsclock_probe'):
         # stamps and verdicts of the file checkers are functions of the file, not of the wall clock: the same path states (with
         # modification times in the past and in the future) probed twice, more than a second apart, give the same lines
         exe_fs, pout = C.build_harness('fs_probe')
@@ -316,7 +323,25 @@ def run(prop, tier, seed, replay=None):
                 findings.append(('clock-dependent', 'the same path states probed twice, 1.3 s apart, give different stamps / verdicts: %r vs %r' % d, base))
         else:
             findings.append(('crash', 'fs_probe did not build', base))
-    if cfg.get('extra') == 'wabort' and (not replay or cases[0][4] == 'wabort_probe'):
+    for pname, plines, expect, what in (
+            ('flaky', 4, {'flaky ctx=td armed=1 errs=[77] execs=1 checks=1 left=0', 'flaky ctx=td armed=2 errs=[77] execs=1 checks=1 left=1',
+                          'flaky ctx=bu armed=1 errs=[77] execs=1 checks=1 left=0', 'flaky ctx=bu armed=2 errs=[77] execs=1 checks=1 left=1'},
+             'a resource checker that fails its next N checks: the one check of the dependency fails once, the error is reported, the owner is executed (top-down) / scheduled and executed (bottom-up), and the checker is not asked again'),
+            ('lossy', 2, {'lossy ctx=td first=2 out=4 up_execs_in_bottom_up=0 up_execs_total=1', 'lossy ctx=bu first=2 out=4 up_execs_in_bottom_up=1 up_execs_total=1'},
+             'an output type whose Debug text is the same for every value: the requirer with the equality checker is re-executed (top-down) / scheduled and executed in the bottom-up build (and not again afterwards) when the required output changes')):
+        if has_extra(cfg, pname) and (not replay or cases[0][4] == pname + '_probe'):
+            exe_probe, pout = C.build_harness('misc_probe')
+            rc1, o1, _ = C.sh([exe_probe, pname], timeout=600) if exe_probe else (1, '', 0)
+            got = [l for l in o1.split('\n') if l.startswith(pname + ' ')]
+            base = len(cases) if not replay else 0
+            if not replay: cases.append((None, None, {}, [pname], pname + '_probe'))
+            if rc1 != 0 or len(got) != plines:
+                findings.append(('crash', 'the %s probe crashed or printed %d of %d lines' % (pname, len(got), plines), base))
+            else:
+                bad = [l for l in got if l not in expect]
+                if bad:
+                    findings.append((pname + '-probe', '%s probe: observed %r; expected: %s' % (pname, bad[0], what), base))
+    if has_extra(cfg, 'wabort') and (not replay or cases[0][4] == 'wabort_probe'):
         # opening a resource for writing may itself modify it (a file is created / truncated): a rejected write through the
         # context must be rejected before Resource::write is called
         exe_probe, pout = C.build_harness('misc_probe')
@@ -334,7 +359,7 @@ def run(prop, tier, seed, replay=None):
                 findings.append(('not-detected', '%s: the build did not abort with the %s diagnosis (aborted=%s %s)' % (where, kind, kv['aborted'], kv['msg']), base)); break
             if kv['opens_after'] != kv['opens_before']:
                 findings.append(('modified-before-abort', '%s: the resource was opened for writing (%s -> %s opens; a file would have been created or truncated) although the write was rejected' % (where, kv['opens_before'], kv['opens_after']), base)); break
-    if cfg.get('extra') == 'tracker' and (not replay or cases[0][4] == 'tracker_probe'):
+    if has_extra(cfg, 'tracker') and (not replay or cases[0][4] == 'tracker_probe'):
         tcases = [c[3] for c in cases] if replay else [SM.ALL_KINDS_CASE] + [SM.gen_tracker_case(rng) for _ in range(600 if tier == 'quick' else 20000)]
         exe_probe, pout = C.build_harness('misc_probe')
         f = os.path.join(work, 'tracker.txt')
@@ -457,7 +482,10 @@ def remap(prog, pr, sig, toks=None):
         # the recorded finding O7 is: only the LAST checker is recorded.  It explains a stale result only if the last of the two
         # checkers is the more lenient one (checker ids: 0 equals < 1 < 2 always)
         cs = [int(toks[i + 2]) for i in range(len(toks) - 2) if toks[i] == 'Q' and toks[i + 1] == '1'][:2] if toks else []
-        if len(cs) < 2 or cs[1] > cs[0]:
+        lenient = {0: 0, 1: 1, 4: 1, 3: 2, 2: 3}
+        if any(c in (3, 4) for c in cs):
+            return 'NONE', 'tolerance-accepted-staleness'      # a tolerance checker accepts a drifted output by design: not a stale result in the sense of C01
+        if len(cs) < 2 or lenient.get(cs[1], 0) > lenient.get(cs[0], 0):
             return 'C08', 'multi-checker-stale'
     return pr, sig
 
